@@ -133,9 +133,10 @@ theorem toRat_eq {x : ER} (hn : x.num.neg = false) (hd : x.den.neg = false) :
   rw [toInt_nonneg_of hn, toInt_nonneg_of hd]
   split <;> simp
 
-/-- normalize(): same value, lowest terms, positive denominator. -/
+/-- normalize(): same value, lowest terms, positive denominator, and (commit 535b52e) no sign on a zero numerator. -/
 theorem normalize_spec {x : ER} (hx : ERCanon x) :
-    toRat (normalize x) = toRat x ∧ ERCanon (normalize x) ∧ (normalize x).neg = x.neg ∧
+    toRat (normalize x) = toRat x ∧ ERCanon (normalize x) ∧
+    (normalize x).neg = (if EDec.toNat (normalize x).num.d = 0 then false else x.neg) ∧
     Nat.gcd (EDec.toNat (normalize x).num.d) (EDec.toNat (normalize x).den.d) = 1 ∧
     EDec.toNat (normalize x).num.d = EDec.toNat x.num.d / Nat.gcd (EDec.toNat x.num.d) (EDec.toNat x.den.d) ∧
     EDec.toNat (normalize x).den.d = EDec.toNat x.den.d / Nat.gcd (EDec.toNat x.num.d) (EDec.toNat x.den.d) := by
@@ -151,10 +152,20 @@ theorem normalize_spec {x : ER} (hx : ERCanon x) :
     Nat.div_pos (Nat.le_of_dvd hd0 hdiv2) hG
   have hN : (normalize x).num = EDec.div x.num (gcdLoop (5 * (x.den.d.length + x.num.d.length) + 5) x.num x.den) := rfl
   have hD : (normalize x).den = EDec.div x.den (gcdLoop (5 * (x.den.d.length + x.num.d.length) + 5) x.num x.den) := rfl
-  have hS : (normalize x).neg = x.neg := rfl
-  refine ⟨?_, ⟨by rw [hN]; exact hq1, by rw [hD]; exact hq2, by rw [hD, hq2v]; exact hden_pos⟩, hS, ?_, by rw [hN, hq1v], by rw [hD, hq2v]⟩
-  · rw [toRat_eq (x := normalize x) (by rw [hN]; exact hq1.2) (by rw [hD]; exact hq2.2), toRat_eq hn.2 hd.2, hS, hN, hD, hq1v, hq2v]
-    congr 1
+  have hS : (normalize x).neg = (if EDec.toNat (normalize x).num.d = 0 then false else x.neg) := by
+    show (if EDec.isZero (EDec.div x.num (gcdLoop (5 * (x.den.d.length + x.num.d.length) + 5) x.num x.den)) then false else x.neg) = _
+    rw [hN]
+    by_cases hz : EDec.toNat (EDec.div x.num (gcdLoop (5 * (x.den.d.length + x.num.d.length) + 5) x.num x.den)).d = 0
+    · simp [(isZero_iff _).mpr hz, hz]
+    · have : EDec.isZero (EDec.div x.num (gcdLoop (5 * (x.den.d.length + x.num.d.length) + 5) x.num x.den)) = false := by
+        cases h : EDec.isZero (EDec.div x.num (gcdLoop (5 * (x.den.d.length + x.num.d.length) + 5) x.num x.den)) with
+        | false => rfl
+        | true => exact absurd ((isZero_iff _).mp h) hz
+      simp [this, hz]
+  -- the reduced fraction has the same value
+  have hfrac : ((EDec.toNat x.num.d / Nat.gcd (EDec.toNat x.num.d) (EDec.toNat x.den.d) : Nat) : Rat) /
+      ((EDec.toNat x.den.d / Nat.gcd (EDec.toNat x.num.d) (EDec.toNat x.den.d) : Nat) : Rat)
+      = (EDec.toNat x.num.d : Rat) / (EDec.toNat x.den.d : Rat) := by
     obtain ⟨n', hn'⟩ := hdiv1
     obtain ⟨d', hd'⟩ := hdiv2
     generalize Nat.gcd (EDec.toNat x.num.d) (EDec.toNat x.den.d) = G at *
@@ -166,6 +177,18 @@ theorem normalize_spec {x : ER} (hx : ERCanon x) :
       exact_mod_cast this
     push_cast
     field_simp
+  refine ⟨?_, ⟨by rw [hN]; exact hq1, by rw [hD]; exact hq2, by rw [hD, hq2v]; exact hden_pos⟩, hS, ?_, by rw [hN, hq1v], by rw [hD, hq2v]⟩
+  · rw [toRat_eq (x := normalize x) (by rw [hN]; exact hq1.2) (by rw [hD]; exact hq2.2), toRat_eq hn.2 hd.2, hS]
+    have hnv : EDec.toNat (normalize x).num.d = EDec.toNat x.num.d / Nat.gcd (EDec.toNat x.num.d) (EDec.toNat x.den.d) := by rw [hN, hq1v]
+    have hdv : EDec.toNat (normalize x).den.d = EDec.toNat x.den.d / Nat.gcd (EDec.toNat x.num.d) (EDec.toNat x.den.d) := by rw [hD, hq2v]
+    rw [hnv, hdv, hfrac]
+    by_cases hz : EDec.toNat x.num.d / Nat.gcd (EDec.toNat x.num.d) (EDec.toNat x.den.d) = 0
+    · have hN0 : EDec.toNat x.num.d = 0 := by
+        have := Nat.mul_div_cancel' hdiv1
+        rw [hz, Nat.mul_zero] at this
+        exact this.symm
+      simp [hN0]
+    · simp [hz]
   · rw [hN, hD, hq1v, hq2v]
     exact Nat.coprime_div_gcd_div_gcd hG
 
